@@ -207,7 +207,9 @@ def gen_link(rng, blocks, opts):
     if len({(i["sec"], tuple(i["atoms"]), i["meta"].get("version", 1)) for i in inter}) < len(inter):
         return None
     link = {"atoms": latoms, "resname_all": "|".join(rsets[0]) if use_global else None, "inter": inter,
-            "edges": [], "nonedges": [], "patterns": [], "orders": orders}
+            "edges": [], "nonedges": [], "patterns": [], "orders": orders, "log": None}
+    if rng.random() < opts.get("p_log", 0.0):
+        link["log"] = (rng.choice(["info", "warning"]), "link message %d" % rng.randint(0, 99))
     # explicit edges instead of interaction-made edges (optionally labelled)
     if rng.random() < opts.get("p_edge", 0.15):
         label = rng.choice([None, None, "a", "b"]) if opts.get("linktypes") else None
@@ -340,6 +342,8 @@ def render_links_ff(links):
             for x, tgt in l["nonedges"]:
                 out.append("%s %s" % (_tok(l["atoms"][x], with_attrs=False),
                                       pref(tgt["order"]) + tgt["name"] + (" " + json.dumps(tgt["attrs"]) if tgt["attrs"] else "")))
+        if l.get("log"):
+            out += ["[ %s ]" % l["log"][0], l["log"][1]]
         if l["patterns"]:
             out.append("[ patterns ]")
             for row in l["patterns"]:
